@@ -83,3 +83,15 @@ def _detail_fields(v, kind, fields):
         elif got != want:
             return False
     return True
+
+
+@predicate("detail_fields_min")
+def _detail_fields_min(v, kind, fields, minimum):
+    """like detail_fields, plus numeric detail fields that must reach a minimum"""
+    if not _detail_fields(v, kind, fields):
+        return False
+    d = v.get("detail") or {}
+    for k, m in minimum.items():
+        if not isinstance(d.get(k), (int, float)) or d[k] < m:
+            return False
+    return True
